@@ -669,10 +669,11 @@ impl Seq {
                 },
                 Stmt::AbortTask(slot) => {
                     if let Some(uid) = self.slots.get(&slot) {
+                        if g.ran_this_settle.contains(uid) && !g.aborted_tasks.contains(uid) {
+                            // whether the target ran before the abort depends on queue order
+                            g.ambiguous = Some("task aborted in the settle in which it ran".into());
+                        }
                         if g.live_tasks.contains(uid) && !g.aborted_tasks.contains(uid) {
-                            if g.ran_this_settle.contains(uid) {
-                                g.ambiguous = Some("task aborted in the settle in which it ran".into());
-                            }
                             g.aborted_tasks.insert(*uid);
                             g.aborted_this_settle.insert(*uid);
                         }
